@@ -47,80 +47,11 @@ GROUPS = {"space": KIND_LABELS["space"], "time": KIND_LABELS["time"], "quantity"
           "density": DENSITY, "volume": VOLUME}
 
 
-# ---------------------------------------------------------------------------
-# building text in both modes
-class Txt:
-    """text builder: token string in symbolic mode, python str in concrete mode"""
+from spec.text import Txt as _Txt
 
-    def __init__(self, api):
-        self.api = api
-        self.parts = []
 
-    def lit(self, s):
-        self.parts.append(("lit", s))
-        return self
-
-    def sym(self, e):
-        self.parts.append(("sym", e))
-        return self
-
-    def int(self, n):
-        self.parts.append(("int", n))
-        return self
-
-    def flt(self, x):
-        self.parts.append(("flt", x))
-        return self
-
-    def ws(self, minlen, name):
-        self.parts.append(("ws", (minlen, name)))
-        return self
-
-    def label(self, name):
-        self.parts.append(("label", name))
-        return self
-
-    def build(self):
-        api = self.api
-        if api.mode == "conc":
-            out = ""
-            for k, v in self.parts:
-                if k == "lit":
-                    out += v
-                elif k == "sym":
-                    out += v
-                elif k == "int":
-                    out += str(v)
-                elif k == "flt":
-                    out += repr(float(v))
-                elif k == "ws":
-                    n = api.int(v[1], v[0], v[0] + 2)
-                    out += " " * n
-                elif k == "label":
-                    out += ["Zq", "foo", "xyz", "QQ", "w"][api.int(v, 0, 4)]
-            return out
-        from vc.core import tokstr as T
-        from vc.core.proxies import SEnum
-        import z3
-        atoms = []
-        for k, v in self.parts:
-            if k == "lit":
-                atoms.append(T.Lit(v))
-            elif k == "sym":
-                atoms.append(T.Enum(v) if isinstance(v, SEnum) else T.Lit(v))
-            elif k == "int":
-                atoms.append(T.IntLit(v) if not isinstance(v, int) else T.Lit(str(v)))
-            elif k == "flt":
-                atoms.append(T.FloatLit(v))
-            elif k == "ws":
-                atoms.append(T.WS(v[0]))
-            elif k == "label":
-                # unknown symbol: >= 1 characters, none of them blank, digit, + - > . / or 'u'
-                # (the u-for-micro rewriting cannot touch it), different from every table symbol
-                from vc.core.tokparse import LABEL_EXCLUDED
-                atoms.append(T.Label(z3.Int(v), excluded=set(LABEL_EXCLUDED) | {"u"},
-                                     not_in=set(ALL_SYMBOLS)))
-        return T.TokStr(atoms)
+def Txt(api):
+    return _Txt(api, ALL_SYMBOLS)
 
 
 def symbol(api, name, group=None):
